@@ -146,7 +146,7 @@ package memfs
 //@ define Unowned(a int) bool = forallp(r, dyntype(r), isa(r, "memfs.Dir") ==> arr(ptr(r, "memfs.Dir").nodes) != a)
 //@ iface os.FileInfo.Name(self) (s)
 //@   pure
-//@   ensures isNode(self) ==> s == nodeName(self)
+//@   ensures [C01 C04 C09] isNode(self) ==> s == nodeName(self)
 //@ iface os.FileInfo.IsDir(self) (b)
 //@   pure
 //@   ensures typeis(self, "*memfs.Dir") ==> b
